@@ -289,3 +289,59 @@ H("C20", file="golden/lib.rs", name="c20_no_update_mismatch", timeout=900, expec
   expected_failures=[{"desc": "message formatted at runtime", "loc": "Golden::assert"}],
   oracle="Golden::assert never returns (a harness-level panic placed after the call must be unreachable); the only failing solver "
          "obligation is assert's own panic; no write happens before it")
+
+# --------------------------------------------------------------------------- C08
+def _rec(e, v=1, b=1, u=0):
+    return {"Expr<'_> as report::eval::Evaluable>::eval_visit": e, "ValueExpr<'_> as report::eval::Evaluable>::eval_visit": v,
+            "BinaryOpExpr<'_> as report::eval::Evaluable>::eval_visit": b, "UnaryOpExpr<'_> as report::eval::Evaluable>::eval_visit": u}
+
+
+prop("C08", title="Value expressions evaluate as ordinary arithmetic with commodity typing",
+     level_text="Bounded model checking of the evaluator in two layers. (1) Typing and arithmetic of each operator: Evaluated::check_add/sub/"
+                "mul/div, negate and the 'amount required' / 'single amount required' conversions for EVERY pair of operands drawn from "
+                "{bare number, v X, v Y, v X + w Y} (16-bit values; 8-bit for *), under symbolic map order, against the typing table of the "
+                "statement. (2) The recursion: real expr trees (a o b) o c, a o (b o c), (-a) o b with symbolic operators from {+,-,*} and "
+                "numeric leaves evaluate to the reference arithmetic (operand order, grouping, negation). Precedence and associativity are "
+                "decided by the winnow parser and are outside; inexact quotients are uninterpreted (sign/zero-ness only); deeper trees outside.",
+     level_note="Trusted: Kani/CBMC; verif_map, verif_dec (quotients uninterpreted but functional); recursion of eval_visit bounded per harness "
+                "with recursion unwinding assertions on (a deeper recursion would be reported, not truncated).")
+for nm, exp in (("add", 125), ("sub", 125), ("mul", 315), ("div", 180)):
+    H("C08", file="core/evaluated.rs", name="c08_typing_" + nm, timeout=1800, expect_s=exp, map_cap=2,
+      functions=["Evaluated::check_" + nm, "Amount += / -= / *= / check_div", "SingleAmount::check_div"],
+      bound="operands from {number, v X, v Y, v X + w Y}, 16-bit signed (8-bit for mul); symbolic map order; unwind 6", models=[DEC, MAPND],
+      oracle="typing table of the statement; per-commodity arithmetic")
+H("C08", file="core/evaluated.rs", name="c08_negate_and_amount_required", timeout=900, expect_s=40, map_cap=2,
+  functions=["Evaluated::negate", "TryFrom<Evaluated> for Amount"], bound="one operand as above", models=[DEC, MAPND],
+  oracle="negation per commodity; non-zero bare number is not an amount")
+H("C08", file="core/amount.rs", name="c08_single_amount_required", timeout=900, expect_s=30, map_cap=2,
+  functions=["TryFrom<&Amount> for SingleAmount", "TryFrom<&Amount> for PostingAmount"],
+  bound="amounts with 0, 1, 2 commodities, both insertion orders, symbolic iteration order", models=[DEC, MAPND],
+  oracle="2 commodities => Err for both conversions; 1 => itself; 0 => Err / bare zero")
+H("C08", file="core/eval.rs", name="c08_tree_left", timeout=1800, expect_s=230, map_cap=2, recursion=_rec(2),
+  functions=["Evaluable::eval_visit for ValueExpr / Expr / BinaryOpExpr / UnaryOpExpr", "Evaluated::check_add/sub/mul"],
+  bound="(a o1 b) o2 c, o in {+,-,*}, 6-bit signed numeric leaves; eval_visit recursion <= 2 re-entries (assertion on)", models=[DEC],
+  oracle="== apply(o2, apply(o1, a, b), c)")
+H("C08", file="core/eval.rs", name="c08_tree_negated", timeout=1800, expect_s=210, map_cap=2, recursion=_rec(2),
+  functions=["UnaryOpExpr::eval_visit", "Evaluable::eval_visit"], bound="(-a) o1 b", models=[DEC], oracle="== apply(o1, -a, b)")
+H("C08", file="core/eval.rs", name="c08_tree_right", tier="thorough", timeout=3000, expect_s=600, map_cap=2, recursion=_rec(2), mem_gb=20,
+  functions=["Evaluable::eval_visit"], bound="a o1 (b o2 c)", models=[DEC], oracle="== apply(o1, a, apply(o2, b, c))")
+
+# --------------------------------------------------------------------------- C13
+prop("C13", title="Same input, same output: runs are deterministic",
+     level_text="The only source of run-to-run variation inside okane is the iteration order of std HashMap. The map model makes that order a "
+                "SOLVER VARIABLE, so each harness below is decided for every order at once: a multi-commodity amount is never turned into a "
+                "single amount by picking 'the first' entry; the acceptance predicate of check_balance (incl. which side of an implied exchange "
+                "is which), balance assertions, the inferred amount and the operator typing give the same verdicts and values for every "
+                "order. Outside: byte-identical stdout across processes, sorted listings (Balance::into_vec, all_accounts) and the inline text "
+                "of multi-commodity amounts (Vec sort + fmt machinery do not fit the solver; the text harness found the order dependence on "
+                "the original tree and is kept as a seeded case), the field order of rewrite matchers (std HashMap in serde types), wall clock.",
+     level_note="Trusted: Kani/CBMC; verif_map's order model: all rotations of slot order, re-chosen at every structural mutation, "
+                "stable between mutations (for <= 2 entries: every order).")
+H("C13", file="core/amount.rs", name="c08_single_amount_required", timeout=900, expect_s=30, map_cap=2,
+  functions=["TryFrom<&Amount> for SingleAmount"], bound="2-commodity amount, symbolic iteration order", models=[DEC, MAPND],
+  oracle="never Ok(first entry): Err for every order")
+H("C13", file="core/book_keeping.rs", name="c01_residual_2", timeout=1500, expect_s=220,
+  functions=["check_balance", "Amount::maybe_pair"], bound="2-commodity residual, symbolic iteration order", models=[DEC, MAPND, FMT, BUMP],
+  oracle="verdict and recorded price satisfy an order-free predicate for every order")
+H("C13", file="core/book_keeping.rs", name="c03_deduce_kernel", timeout=1500, expect_s=190, map_cap=2,
+  functions=["Amount::negate", "Balance::add_amount"], bound="symbolic iteration order", models=[DEC, MAPND], oracle="order-free values")
